@@ -36,6 +36,18 @@ BitsOf(tab, n, len) == LET g[i \in 0..len] == IF i = len THEN <<>>
                                                 ELSE LET e == OwnerOf(tab, i)
                                                      IN (IF e.n = n THEN <<<<i, 2^(e.hi - (i - e.s))>>>> ELSE <<>>) \o g[i + 1]
                        IN g[0]
+(* For the streams sent msb first (VPS, descriptor) an encoder / decoder works on SEGMENTS: the part of a table entry that lies
+   inside buffer byte k, i.e. w bits at bit blo of the byte (lsb = 0) carrying the value bits vlo .. vlo+w-1.  The plan is
+   derived from the field table by TLC; the bit-level view (OwnerOf) is what the frame / independence properties use. *)
+SegsOfByte(tab, k) ==
+  LET lo == 8 * (k - 1)   hi == 8 * k - 1
+      seg(e) == LET s0 == IF e.s > lo THEN e.s ELSE lo
+                    s1 == IF e.s + e.w - 1 < hi THEN e.s + e.w - 1 ELSE hi
+                IN [n |-> e.n, k |-> k, blo |-> 7 - (s1 % 8), w |-> s1 - s0 + 1, vlo |-> e.hi - (s1 - e.s)]
+      T == {seg(e) : e \in {e \in tab : e.s <= hi /\ e.s + e.w - 1 >= lo}}
+  IN TLCEval([i \in 1..Cardinality(T) |-> CHOOSE t \in T : Cardinality({u \in T : u.blo > t.blo}) = i - 1])
+PlanOf(tab, nbytes) == [k \in 1..nbytes |-> SegsOfByte(tab, k)]
+SegsOfName(plan, n) == LET g[k \in 0..Len(plan)] == IF k = 0 THEN <<>> ELSE g[k - 1] \o SelectSeq(plan[k], LAMBDA t : t.n = n) IN g[Len(plan)]
 Disjoint(tab) == \A e1, e2 \in tab : e1 # e2 => (e1.s + e1.w <= e2.s \/ e2.s + e2.w <= e1.s)
 
 (* PIL = day(5) month(4) hour(5) minute(6), pdc.h VBI_PIL *)
@@ -53,13 +65,15 @@ VpsTab == {E("pcs", 1, VpsAt(5, 0), 2), E("dist", 0, VpsAt(5, 3), 1),
            E("cni", 5, VpsAt(14, 2), 6), E("pty", 7, VpsAt(15, 0), 8)} \cup PilFields(VpsAt(11, 2))
 VpsLen == 104
 VpsOwner == TLCEval([i \in 0..(VpsLen - 1) |-> OwnerOf(VpsTab, i)])
-VpsBits  == TLCEval([n \in {"pcs", "dist", "cni", "pil", "pty"} |-> BitsOf(VpsTab, n, VpsLen)])
+VpsPlan  == TLCEval(PlanOf(VpsTab, 13))
+VpsSegs  == TLCEval([n \in {"pcs", "dist", "cni", "pil", "pty"} |-> SegsOfName(VpsPlan, n)])
 
 (* DVB PDC descriptor, EN 300 468 6.2.29: tag(8) length(8) reserved_future_use(4) PIL(20), msb first *)
 DvbTab == {E("tag", 7, 0, 8), E("len", 7, 8, 8), E("rsv", 3, 16, 4)} \cup PilFields(20)
 DvbLen == 40
 DvbOwner == TLCEval([i \in 0..(DvbLen - 1) |-> OwnerOf(DvbTab, i)])
-DvbBits  == TLCEval([n \in {"tag", "len", "rsv", "pil"} |-> BitsOf(DvbTab, n, DvbLen)])
+DvbPlan  == TLCEval(PlanOf(DvbTab, 5))
+DvbSegs  == TLCEval([n \in {"tag", "len", "rsv", "pil"} |-> SegsOfName(DvbPlan, n)])
 
 (* Packet 8/30 format 2, EN 300 231 Table 4: the 13 x 4 data bits of bytes 13..25 in transmission
    order (stream bit = (byte - 13) * 4 + d, d = 0 for data bit D1).  Every value is sent msb first.
@@ -107,13 +121,15 @@ Pid(ch, ct, cni, pil, luf, mi, prf, pcs, pty) ==
 
 (* ---------------------------------------- VPS --------------------------------------------- *)
 VBit(b, i) == Bit(b[(i \div 8) + 1], 7 - (i % 8))
-VpsGet(b, n) == LET L == VpsBits[n] IN SumTo(LAMBDA k : VBit(b, L[k][1]) * L[k][2], Len(L))
+GetSegs(b, L) == SumTo(LAMBDA j : Fld(b[L[j].k], L[j].blo, L[j].w) * 2^(L[j].vlo), Len(L))
+VpsGet(b, n) == GetSegs(b, VpsSegs[n])
 VpsRawCni(b) == VpsGet(b, "cni")
-\* overlay: the stream bits owned by a value in `names` are replaced by the bits of vals[name]
-Overlay(b, len, owner, getbit(_, _), names, vals) ==
-  TLCEval([k \in 1..(len \div 8) |->
-     SumTo(LAMBDA j : LET i == 8 * (k - 1) + (j - 1)   e == owner[i]
-                      IN (IF e.n \in names THEN Bit(vals[e.n], e.hi - (i - e.s)) ELSE getbit(b, i)) * 2^(8 - j), 8)])
+\* overlay: the segments of the values in `names` are replaced by the bits of vals[name], everything else is kept
+Overlay(b, plan, names, vals) ==
+  TLCEval([k \in 1..Len(plan) |->
+     LET sg == plan[k]
+     IN b[k] + SumTo(LAMBDA j : IF sg[j].n \in names
+                                THEN (Fld(vals[sg[j].n], sg[j].vlo, sg[j].w) - Fld(b[k], sg[j].blo, sg[j].w)) * 2^(sg[j].blo) ELSE 0, Len(sg))])
 
 DecVpsCni(b) == LET raw == VpsRawCni(b)
                 IN IF raw = 3523 (* 0xDC3 *) THEN (IF VpsGet(b, "dist") = 1 THEN 3521 (* ARD 0xDC1 *) ELSE 3522 (* ZDF 0xDC2 *))
@@ -123,20 +139,20 @@ DecVpsPdc(b) == [ok |-> TRUE,
 
 EncVpsCni(b, cni) ==
   IF cni \notin 0..4095 THEN [ok |-> FALSE, buf |-> b]
-  ELSE [ok |-> TRUE, buf |-> Overlay(b, VpsLen, VpsOwner, VBit, {"cni"}, [cni |-> cni])]
+  ELSE [ok |-> TRUE, buf |-> Overlay(b, VpsPlan, {"cni"}, [cni |-> cni])]
 PidInVpsRange(p) == p.cni \in 0..4095 /\ p.pil \in 0..1048575 /\ p.pcs \in 0..3 /\ p.pty \in 0..255
 EncVpsPdc(b, p) ==
   IF ~PidInVpsRange(p) THEN [ok |-> FALSE, buf |-> b]
-  ELSE [ok |-> TRUE, buf |-> Overlay(b, VpsLen, VpsOwner, VBit, {"cni", "pil", "pcs", "pty"},
+  ELSE [ok |-> TRUE, buf |-> Overlay(b, VpsPlan, {"cni", "pil", "pcs", "pty"},
                                      [cni |-> p.cni, pil |-> p.pil, pcs |-> p.pcs, pty |-> p.pty])]
 
 (* ---------------------------------- DVB PDC descriptor ------------------------------------ *)
-DvbGet(b, n) == LET L == DvbBits[n] IN SumTo(LAMBDA k : VBit(b, L[k][1]) * L[k][2], Len(L))
+DvbGet(b, n) == GetSegs(b, DvbSegs[n])
 DecDvb(b) == IF DvbGet(b, "tag") # 105 (* 0x69 *) \/ DvbGet(b, "len") # 3 THEN [ok |-> FALSE]
              ELSE [ok |-> TRUE, pid |-> Pid(ChDvb, CtNone, 0, DvbGet(b, "pil"), 0, 1, 0, 0, 0)]
 EncDvb(b, p) ==
   IF p.pil \notin 0..1048575 THEN [ok |-> FALSE, buf |-> b]
-  ELSE [ok |-> TRUE, buf |-> Overlay(b, DvbLen, DvbOwner, VBit, {"tag", "len", "rsv", "pil"},
+  ELSE [ok |-> TRUE, buf |-> Overlay(b, DvbPlan, {"tag", "len", "rsv", "pil"},
                                      [tag |-> 105, len |-> 3, rsv |-> 15 (* 3.1: reserved_future_use = 1 *), pil |-> p.pil])]
 
 (* ------------------------------------- packet 8/30 ---------------------------------------- *)
